@@ -10,7 +10,7 @@ git -C /repo worktree add -q --detach $WT HEAD || exit 2
 : > $OUT
 for n in $NAMES; do
   git -C $WT checkout -q -- . && git -C $WT apply /verif/selftest/rewrites/$n.diff || { echo "$n APPLY-FAILED" >> $OUT; continue; }
-  for p in C01 C02 C03 C04 C05 C06 C07 C08 C09 C10 C11 C12 C13 C14 C15 C16 C17 C18 C19 C20; do
+  for p in ${RW_PROPS:-C01 C02 C03 C04 C05 C06 C07 C08 C09 C10 C11 C12 C13 C14 C15 C16 C17 C18 C19 C20}; do
     r=$(cd $V && VERIF_REPO=$WT ./check $p 2>&1 | grep -a "VIOLATION\|quick:" | tr "\n" " "); 
     case "$r" in *VIOLATION*) echo "$n $p ALARM $r" >> $OUT;; *"violations 0"*) echo "$n $p ok" >> $OUT;; *) echo "$n $p ??? $r" >> $OUT;; esac
   done
